@@ -66,6 +66,13 @@ func replayFile(prop, tier, path string) int {
 		}
 		return 0
 	}
-	fmt.Fprintf(os.Stderr, "no single-case replay for %s: the replay file names the case (key) and the driver re-enumerates it; run the check itself\n", prop)
-	return 2
+	// generic replay: the driver enumerates its tier again, only the recorded case (same key) is judged
+	// and neither evidence nor replay files are written
+	if f.Key == "" {
+		fmt.Fprintf(os.Stderr, "replay file %s names no case\n", path)
+		return 2
+	}
+	os.Setenv("VERIF_REPLAY_KEY", f.Key)
+	os.Setenv("VERIF_SUPERVISED", "replay")
+	return runProp(prop, tier)
 }
